@@ -96,19 +96,6 @@ Proof.
 Qed.
 
 (* ---- policy lookups through pset ----------------------------------------- *)
-Lemma plookup_pset n k v p :
-  plookup n (pset k v p) = if bytes_eqb k n then Some v else plookup n p.
-Proof.
-  induction p as [|[k' w] p IH]; simpl.
-  - destruct (bytes_eqb k n); reflexivity.
-  - destruct (bytes_eqb k' k) eqn:E; simpl.
-    + apply bytes_eqb_eq in E. subst. destruct (bytes_eqb k n); reflexivity.
-    + rewrite IH. destruct (bytes_eqb k' n) eqn:E2; [|reflexivity].
-      apply bytes_eqb_eq in E2. subst.
-      destruct (bytes_eqb k n) eqn:E3; [|reflexivity].
-      apply bytes_eqb_eq in E3. subst. rewrite bytes_eqb_refl in E. discriminate.
-Qed.
-
 Lemma plookup_finish_other n p sid u u' proto :
   n <> A_User ->
   plookup n (finish_policy p sid u proto) = plookup n (finish_policy p sid u' proto).
